@@ -54,7 +54,8 @@ type linkCase struct {
 	Horizon int64       `json:"horizon"`
 	Seed    int64       `json:"seed"`
 	Reseed  int64       `json:"reseed"` // if nonzero: rand.Seed(Reseed) after all stages have started (mirrored PRNG)
-	Links   int         `json:"links"`  // number of identical links on the proxy (default 1)
+	Links   int         `json:"links"`  // number of links on the proxy (default 1)
+	Srcs    [][]srcEv   `json:"srcs"`   // per-link source scripts (link k uses Srcs[k] when present, else Src)
 }
 
 type sinkWrite struct {
@@ -200,7 +201,11 @@ func runLinkCase(t *testing.T, c *linkCase) linkResult {
 		go func(k int) {
 			defer srcWG.Done()
 			sent := 0
-			for _, ev := range c.Src {
+			src := c.Src
+			if k < len(c.Srcs) {
+				src = c.Srcs[k]
+			}
+			for _, ev := range src {
 				if d := time.Duration(ev.At) - time.Since(start); d > 0 {
 					time.Sleep(d)
 				}
